@@ -1,5 +1,6 @@
 import TlxVerif.Model.Drv
 import TlxVerif.Model.C04Sort
+import TlxVerif.Model.C04Replay
 open TlxVerif TlxVerif.C04
 
 /-! Line-protocol driver of the C04 functional model (see harness/c04.cpp for the
@@ -111,8 +112,17 @@ def runClassify (kind tb depth : Nat) (samples strs : List Str) (withStep : Bool
   | .ok s => s
   | .error e => showErr e
 
+def runTrace (toks : List String) : String :=
+  match toks.mapM Replay.parseEv with
+  | none => "bad-op"
+  | some evs =>
+    match Replay.replay evs with
+    | .ok msg => msg
+    | .error e => "TRACE-REJECTED " ++ e
+
 def step (s : St) (ts : List String) : St × String :=
   match ts with
+  | "trace" :: toks => (s, runTrace toks)
   | ["cfg", params, repr, threads, lcp, reps] =>
     match parseParams params, threads.toNat?, reps.toNat? with
     | some p, some t, some r =>
